@@ -15,7 +15,7 @@ V = os.path.dirname(os.path.dirname(os.path.abspath(__file__)))
 repo = os.environ.get("VERIF_REPO", "/repo")
 rows = []
 t0 = time.time()
-for d in sorted(glob.glob(os.path.join(V, "seeded", "seeded-*"))):
+for d in sorted(glob.glob(os.path.join(V, "seeded", "seeded*-C*"))):
     mf = os.path.join(d, "meta.json")
     if not os.path.exists(mf):
         continue
